@@ -14,11 +14,12 @@ TEMPLATES = {
     "staircase": (4, 4, [(0, 1, 0, 3), (1, 2, 0, 2), (2, 3, 0, 1)]),
     "offset_pair": (4, 3, [(0, 2, 0, 1), (1, 3, 1, 2)]),
     "single": (2, 2, [(0, 1, 0, 1)]),
+    "big_crossed_both_ways": (4, 4, [(0, 2, 0, 2), (2, 3, 0, 1), (0, 1, 2, 3)]),   # one cell crossed by an x-line AND a y-line
     "tall_beside_two_apart": (3, 4, [(0, 1, 0, 3), (1, 2, 0, 1), (1, 2, 2, 3)]),   # fewer x- than y-boundaries, crossing
     "wide_over_two_apart": (4, 3, [(0, 3, 0, 1), (0, 1, 1, 2), (2, 3, 1, 2)]),     # more x- than y-boundaries, crossing
 }
 QUICK = ["single", "two_side_by_side_T", "two_stacked_T", "row_of_3", "column_of_3", "wide_under_two",
-         "tall_beside_two_apart", "wide_over_two_apart"]
+         "tall_beside_two_apart", "wide_over_two_apart", "big_crossed_both_ways"]
 
 
 def lattice(S, nx, ny, E):
